@@ -8,6 +8,18 @@ use vcore::num::EPS;
 use vcore::{json, Check, Outcome, Report, Tier, Value};
 
 pub const K: f64 = 10.0;
+/// local-error constant per solver: about four times the worst ratio observed on the repaired tree over the thorough
+/// lattice (in units of tol h, tol for BDF: adams3 1.2, adams5 3.1, rk45 1.4, rk23 0.47, bdf6 3.6, bdf2 0.17), at most K.
+/// A single constant sized for the worst solver lets a four-fold loss of accuracy of RK3(2) (0.47 -> 4) through.
+pub fn k_of(s: Solver) -> f64 {
+    match s {
+        Solver::Adams3 => 5.0,
+        Solver::RK45 => 6.0,
+        Solver::RK23 => 2.0,
+        Solver::BDF2 => 0.7,
+        _ => K,
+    }
+}
 /// constant of the global bounds of C04 (worst observed ratio on the repaired tree: 1.0 x G x tol, so 6 leaves a factor 6)
 pub const KG: f64 = 6.0;
 /// global-error constant per solver: about five times the worst err / (G tol) observed on the repaired tree over the
@@ -101,7 +113,7 @@ impl Check for Local {
         "6 adaptive solvers x catalogue problems (closed-form flows, dimension 1-4) x tolerance x maximum step = min(c x cap(tol)/L, the step at which the first term the estimator cannot see equals 2 tol h for the amplitude of the solution) x initial states (amplitudes 0.6, 1, 60, 2000), t in [0.3, 0.3 + 2/L]; every consecutive pair of every path is judged against the exact flow restarted from the previous point; signature = (solver, tolerance decade, share of cap-limited steps class, end kind)".into()
     }
     fn axes(&self, t: Tier) -> Value {
-        json!({"problems": t.pick(&PROBLEMS12[..][..6], &PROBLEMS12[..]), "tol": [1e-3, 1e-4, 1e-5, 1e-6, 1e-7, 1e-8, 1e-9, 1e-10], "c": [1.0, 0.5, 0.25], "u0_scale": [1.0, 0.6], "K": K})
+        json!({"problems": t.pick(&PROBLEMS12[..][..6], &PROBLEMS12[..]), "tol": [1e-3, 1e-4, 1e-5, 1e-6, 1e-7, 1e-8, 1e-9, 1e-10], "c": [1.0, 0.5, 0.25], "u0_scale": [1.0, 0.6], "K": {"adams5": K, "bdf6": K, "rk45": k_of(Solver::RK45), "adams3": k_of(Solver::Adams3), "rk23": k_of(Solver::RK23), "bdf2": k_of(Solver::BDF2)}})
     }
     fn points(&self, t: Tier) -> Vec<LocalPt> {
         let mut v = vec![];
@@ -197,7 +209,7 @@ impl Check for Local {
             }
             let exact = prob.flow(prev.0, &prev.1, *t);
             let err = ninf(&exact.iter().zip(y).map(|(a, b)| a - b).collect::<Vec<_>>());
-            let bound = K * p.tol * if bdf { 1.0 } else { h } + 64.0 * EPS * ninf(y);
+            let bound = k_of(p.solver) * p.tol * if bdf { 1.0 } else { h } + 64.0 * EPS * ninf(y);
             worst = worst.max(err / bound);
             if !(err <= bound) {
                 o.viol(&subj, if bdf { "local-error<=K*tol" } else { "local-error<=K*tol*h" }, format!("{:?}: step {} from t={:?} h={:e}: |y - flow| = {:e}, bound {:e} ({} x tol{})", p, i, prev.0, h, err, bound, err / (p.tol * if bdf { 1.0 } else { h }), if bdf { "" } else { "*h" }));
@@ -302,7 +314,7 @@ impl Check for LocalCplx {
             }
             let err = prev.1.iter().zip(&lams).zip(y).map(|((u, l), y)| (u * (l * h).exp() - y).norm()).fold(0.0, f64::max);
             let ymax = y.iter().map(|v| v.norm()).fold(0.0, f64::max);
-            let bound = K * p.tol * if bdf { 1.0 } else { h } + 64.0 * EPS * ymax;
+            let bound = k_of(p.solver) * p.tol * if bdf { 1.0 } else { h } + 64.0 * EPS * ymax;
             worst = worst.max(err / bound);
             if !(err <= bound) {
                 o.viol(&subj, if bdf { "local-error<=K*tol" } else { "local-error<=K*tol*h" }, format!("{:?}: step {} from t={:?} h={:e}: |y - flow| = {:e}, bound {:e} ({} x tol{})", p, i, prev.0, h, err, bound, err / (p.tol * if bdf { 1.0 } else { h }), if bdf { "" } else { "*h" }));
@@ -696,7 +708,7 @@ impl Check for ComplexTwin {
 }
 
 pub fn main_c02(mut r: Report) -> ! {
-    r.assumptions = vec![format!("K = {} (observed worst ratio reported under worst_observed)", K), "closed-form flows of the catalogue are the reference; Lipschitz constants come from the closed forms".into()];
+    r.assumptions = vec![format!("local-error constant per solver (about four times the worst observed, at most {}): adams5 10, bdf6 10, rk45 6, adams3 5, rk23 2, bdf2 0.7 (worst ratios reported under worst_observed)", K), "closed-form flows of the catalogue are the reference; Lipschitz constants come from the closed forms".into()];
     r.run(&Local);
     r.run(&LocalCplx);
     r.finish()
